@@ -304,19 +304,19 @@ FAMILIES = [
     Family('L1_concat3', body_concat3, [], INTS('l0', 'l1', 'l2', 'i'), lambda t, s: [()], timeout=60, desc='ConcatenateDataset, 3 parts, unbounded'),
     Family('L1_zip', body_zip, [], INTS('l0', 'i'), lambda t, s: [()], timeout=60, desc='ZipDataset, unbounded'),
     Family('L1_map_cache', body_map_cache, ['kind'], INTS('l0', 'i', 'i2'), lambda t, s: [('map',), ('cache',)], timeout=60, desc='MapDataset / CacheDataset, unbounded'),
-    Family('L1_batch', body_batch, ['bs', 'drop'], INTS('l0', 'i'), _batch_conds, pre=lambda sel: ['0 <= l0 <= 12'], timeout=dict(quick=90, thorough=600), desc='BatchDataset len + index contract (both signs), length <= 12'),
-    Family('L1_batch_nonneg', body_batch_nonneg, ['bs', 'drop'], INTS('l0', 'i'), _batch_conds, timeout=dict(quick=90, thorough=600),
+    Family('L1_batch', body_batch, ['bs', 'drop'], INTS('l0', 'i'), _batch_conds, pre=lambda sel: ['0 <= l0 <= 12'], timeout=dict(quick=240, thorough=600), desc='BatchDataset len + index contract (both signs), length <= 12'),
+    Family('L1_batch_nonneg', body_batch_nonneg, ['bs', 'drop'], INTS('l0', 'i'), _batch_conds, timeout=dict(quick=240, thorough=600),
            desc='BatchDataset non-negative index, unbounded length and index'),
     Family('L1_intersperse', body_intersperse, ['l0', 'l1'], INTS('i'), lambda t, s: [(a, b) for a in range(1, 5) for b in range(1, 5)], timeout=60,
            desc='IntersperseDataset order table, lengths 1..4 x 1..4, unbounded index'),
     Family('L1_intersperse3', body_intersperse3, ['l0', 'l1', 'l2'], INTS('i'),
            lambda t, s: [(a, b, c) for a in range(1, (5 if t == 'quick' else 6)) for b in range(1, (5 if t == 'quick' else 6)) for c in range(1, 6) if a <= b or t != 'quick'], timeout=60,
            desc='IntersperseDataset over three datasets of unequal lengths, unbounded index'),
-    Family('L1_slice_idx', body_slice_idx, ['m'], INTS('l0', 'j0', 'j1', 'j2', 'i'), lambda t, s: [(m,) for m in range(0, (3 if t == 'quick' else 4))], timeout=dict(quick=90, thorough=900),
+    Family('L1_slice_idx', body_slice_idx, ['m'], INTS('l0', 'j0', 'j1', 'j2', 'i'), lambda t, s: [(m,) for m in range(0, (3 if t == 'quick' else 4))], timeout=dict(quick=240, thorough=900),
            desc='SliceDataset over an arbitrary valid index vector (input length <= 3)'),
-    Family('L1_slice_ab', body_slice_ab, ['form'], INTS('l0', 'a', 'b', 'i'), lambda t, s: [(f,) for f in U.SLICE_FORMS], timeout=dict(quick=90, thorough=600),
+    Family('L1_slice_ab', body_slice_ab, ['form'], INTS('l0', 'a', 'b', 'i'), lambda t, s: [(f,) for f in U.SLICE_FORMS], timeout=dict(quick=240, thorough=600),
            desc='SliceDataset over slice(a, b, step), unbounded bounds and index'),
-    Family('L2_index', body_index, ['backing', 'n', 'ops'], U.POOL_PARAMS + [('i', 'int')], _l2_conditions, timeout=dict(quick=60, thorough=300),
+    Family('L2_index', body_index, ['backing', 'n', 'ops'], U.POOL_PARAMS + [('i', 'int')], _l2_conditions, timeout=dict(quick=150, thorough=300),
            desc='whole pipelines: len == #iterated; ds[i] == i-th iterated / IndexError for one symbolic i'),
     Family('L2_npint', body_npint, ['backing', 'n', 'ops', 'i'], U.POOL_PARAMS, _np_conditions, timeout=60, desc='numpy integer index types'),
 ]
